@@ -738,7 +738,18 @@ def _gen_block(rng, kind):
     if kind == 'codes':
         return {'kind': kind, 'text': ('\ufeff' if rng.chance(0.12) else '') + ''.join('0x%x\t%s\n' % (rng.randrange(1 << 32) & ~3, rng.ident())
                                                for _ in range(rng.randint(0, 3)))}
-    return {'kind': 'unknown', 'hex': rng.randbytes(rng.randint(0, 20)).hex()}
+    blk = {'kind': 'unknown', 'hex': rng.randbytes(rng.randint(0, 20)).hex()}
+    if rng.chance(0.5):
+        # a tag no section uses that shares its first or its last four bytes with one that a section does use
+        known = sorted(v for k_, v in writer.TAGS.items() if k_ != 'unknown')
+        t = bytearray(rng.pick(known))
+        if rng.chance(0.6):
+            t[4:8] = rng.pick([b'\x00\x00\x00\x00', b'\x01\x00\x00\x00', b'\x02\x00\x00\x00', b'\x00\x00\x00\x80', rng.randbytes(4)])
+        else:
+            t[0:4] = rng.pick([b'\x02\x80\x00\x00', b'\x13\x80\x00\x00', b'\x04\x80\x01\x00', rng.randbytes(4)])
+        if bytes(t) not in known and bytes(t) not in (writer.TAG_THREADMAP, writer.TAG_EVENTS, writer.TAG_MORE):
+            blk['tag'] = bytes(t).hex()
+    return blk
 
 
 def block_payload(b, fmt):
@@ -761,7 +772,8 @@ def build_file(w, record_bytes):
         chunks.append(record_bytes[prev:c])
         prev = c
     fmt = w.get('plist_fmt', 'binary')
-    blocks = [(b['kind'], block_payload(b, fmt)) for b in w.get('blocks', [])]
+    blocks = [(b['kind'], block_payload(b, fmt), bytes.fromhex(b['tag']) if b.get('kind') == 'unknown' and b.get('tag') else None)
+              for b in w.get('blocks', [])]
     return writer.write_v3(tm, chunks, blocks, cpu_info=w.get('cpu_info'), filler1=bytes.fromhex(w.get('filler1', '')),
                            filler2=bytes.fromhex(w.get('filler2', '')),
                            gaps=[bytes.fromhex(g) for g in w.get('gaps', [])], pad_last=w.get('pad_last', True),
@@ -863,12 +875,25 @@ def dictionary():
     return _dict
 
 
-def dict_size(rng, cap):
+def dict_size(rng, cap, k=None):
     """A count right at a threshold the code names (c-1, c, c+1, c+2), capped; the largest admissible threshold half the time
     (a bound on how much is kept is usually the biggest number around)."""
     sizes = [v for v in dictionary()['sizes'] if v + 2 <= cap]
     if not sizes:
         return None
+    if k is not None:
+        # the k-th choice of a fixed order (rare run families are few: they must not depend on luck): largest threshold first,
+        # just above it first - (largest,+1), (largest,+2), (2nd,+1), (largest,0), (2nd,+2), (3rd,+1), ...
+        desc = sorted(set(sizes), reverse=True)
+        offs = [1, 2, 0, -1]
+        order = []
+        d = 0
+        while len(order) <= k and d < len(desc) + len(offs):
+            for r in range(d + 1):
+                if r < len(desc) and d - r < len(offs):
+                    order.append(desc[r] + offs[d - r])
+            d += 1
+        return order[k % len(order)]
     base = sizes[-1] if rng.chance(0.5) else rng.pick(sizes)
     return base + rng.pick([-1, 0, 1, 1, 2])
 
